@@ -105,6 +105,10 @@ def make_cases(ctx):
             add(analysis=analysis, family="std", comp=True, whatif=True, method=rnd.choice(["generic", "least_squares"]), iters=2)
             add(analysis=analysis, family="std", comp=True, whatif="rerun", iters=2, nperts=rnd.choice([1, 2]))
             add(analysis=analysis, family="std", comp=True, own=True, iters=3, nperts=rnd.choice([1, 2]))
+        # a sweep whose first trial is practically at nominal (almost nothing to compensate), with compensator
+        for analysis in ("sens", "mc"):
+            add(analysis=analysis, family="std", comp=True, near_nominal=True, want_type="radius", nperts=1, iters=3,
+                sampler="range", method=rnd.choice(["generic", "least_squares"]))
         # an index perturbation on a catalogue glass
         add(analysis=rnd.choice(["sens", "mc"]), family="glass", want_type="index", nperts=1)
         # random
@@ -142,6 +146,10 @@ def corruptions(events, verdicts):
         c = copy.deepcopy(e)
         c["ops"][0] = bump(c["ops"][0], 1e-5, 1e-6)
         out.append((c, "row_true", e))
+    for e in some("row", lambda e: e.get("re_comp") and e["re_comp"][0]["k"] == "fin", n=2):
+        c = copy.deepcopy(e)
+        c["re_comp"][0] = bump(c["re_comp"][0], 1e-4, 1e-5)     # the fresh compensation lands elsewhere
+        out.append((c, "row_compensated", e))
     for e in some("row", lambda e: e["ops"] and e["ops"][0]["k"] != "fin", n=2):
         c = copy.deepcopy(e)
         c["re_ops"][0] = dy(0.5)                        # the copy can trace the ray, the row says undefined
@@ -194,7 +202,7 @@ def calibrate(ctx, events, verdicts):
                 c["pv"] = list(begins[0]["nom_pert"])
                 cors.append((c, "nominal_reproduced", e))
     kinds = {c[1] for c in cors}
-    need = {"row_true", "end_state_nominal", "reset_restores", "reproducible", "nominal_reproduced", "sampler_law"}
+    need = {"row_true", "row_compensated", "end_state_nominal", "reset_restores", "reproducible", "nominal_reproduced", "sampler_law"}
     if not need <= kinds:
         raise T.MachineryError("calibration: no accepted record to corrupt for %r" % sorted(need - kinds))
     cal, expect, nid = [], [], 0
